@@ -34,7 +34,9 @@ class OtherExc(Exception):
 
 
 EXCS = {'ValueError': ValueError, 'FailExc': FailExc, 'OtherExc': OtherExc,
-        'KeyError': KeyError}
+        'KeyError': KeyError,
+        # not an Exception subclass (a body calling sys.exit()): the phase thread just ends
+        'SystemExit': SystemExit}
 
 PHASE_RESULTS = {
     'CONTINUE': htf.PhaseResult.CONTINUE,
@@ -68,6 +70,7 @@ class Ctx(object):
     self.mon_serials = {}   # id(monitor thread) -> serial
     self.mon_keep = []      # (keeps the thread objects alive so that ids are not reused)
     self.mon_count = 0
+    self.dut_percent = False
 
   def ev(self, kind, *args):
     return self.sim.event(self.tag + kind, *args)
@@ -141,7 +144,7 @@ def run_body(ctx, name, test, plugs):
     for i in range(beh.get('attach', 0)):
       test.attach('att_%s_%d_%d' % (name, inv, i), ('data-%s-%d' % (name, i)).encode())
     if beh.get('dut'):
-      test.dut_id = 'dut_%s' % name
+      test.dut_id = ('SN%%2F_%s 100%%' if ctx.dut_percent else 'dut_%s') % name
     dur = beh.get('dur', 0)
     hang = beh.get('hang')
     if hang == 'k':
